@@ -1401,7 +1401,10 @@ mzd_t *mzd_concat(mzd_t *C, mzd_t const *A, mzd_t const *B) {
   for (rci_t i = 0; i < A->nrows; ++i) {
     word *dst_truerow = mzd_row(C, i);
     word const *src_truerow = mzd_row_const(A, i);
-    for (wi_t j = 0; j < A->width; ++j) { dst_truerow[j] = src_truerow[j]; }
+    wi_t const last = A->width - 1;
+    for (wi_t j = 0; j < last; ++j) { dst_truerow[j] = src_truerow[j]; }
+    /* only the columns of A: its last word may hold bits of a parent matrix */
+    dst_truerow[last] = (dst_truerow[last] & ~A->high_bitmask) | (src_truerow[last] & A->high_bitmask);
   }
 
   for (rci_t i = 0; i < B->nrows; ++i) {
@@ -1425,16 +1428,20 @@ mzd_t *mzd_stack(mzd_t *C, mzd_t const *A, mzd_t const *B) {
     m4ri_die("mzd_stack: C has wrong dimension!\n");
   }
 
+  wi_t const last     = A->width - 1;
+  word const mask_end = C->high_bitmask;
   for (rci_t i = 0; i < A->nrows; ++i) {
     word const *src_truerow = mzd_row_const(A, i);
     word *dst_truerow = mzd_row(C, i);
-    for (wi_t j = 0; j < A->width; ++j) { dst_truerow[j] = src_truerow[j]; }
+    for (wi_t j = 0; j < last; ++j) { dst_truerow[j] = src_truerow[j]; }
+    dst_truerow[last] = (dst_truerow[last] & ~mask_end) | (src_truerow[last] & mask_end);
   }
 
   for (rci_t i = 0; i < B->nrows; ++i) {
     word *dst_truerow = mzd_row(C, A->nrows + i);
     word const *src_truerow = mzd_row_const(B, i);
-    for (wi_t j = 0; j < B->width; ++j) { dst_truerow[j] = src_truerow[j]; }
+    for (wi_t j = 0; j < last; ++j) { dst_truerow[j] = src_truerow[j]; }
+    dst_truerow[last] = (dst_truerow[last] & ~mask_end) | (src_truerow[last] & mask_end);
   }
 
   __M4RI_DD_MZD(C);
